@@ -509,6 +509,46 @@ def check_label_hints(idx: Index, rep: Report) -> None:
         raise AnalysisError(f"{PARSER}: {n} label-registered Block() constructions found in Parser (definition and forward reference expected)")
 
 
+def check_scope_restore(idx: Index, rep: Report) -> None:
+    """The parser keeps the tables of the region being parsed in its own fields and swaps them when it enters a nested
+    region: the enclosing tables are saved in locals and put back before the function returns.  A return that skips the
+    restore leaves the enclosing region with the (empty) tables of the nested one: labels seen before are forgotten, a
+    forward-referenced block is created twice, a later back edge is 'missing'."""
+    r = rep.rule("C04.R10", "a parser function that saves one of the parser's tables in a local and puts it back restores it on every path to a normal return", floor=2)
+    from ..srcindex import raw_funcs
+
+    n = 0
+    for f in raw_funcs(idx.module(PARSER)):
+        fn = f.node
+        saves: dict[str, tuple[str, ast.AST]] = {}
+        for st in walk_local(fn):
+            if isinstance(st, ast.Assign) and len(st.targets) == 1 and isinstance(st.targets[0], ast.Name):
+                v = st.value
+                if isinstance(v, ast.Call) and isinstance(v.func, ast.Attribute) and v.func.attr == "copy" and not v.args:
+                    v = v.func.value
+                if isinstance(v, ast.Attribute) and isinstance(v.value, ast.Name) and v.value.id == "self":
+                    saves.setdefault(st.targets[0].id, (v.attr, st))
+        if not saves:
+            continue
+        cfg = None
+        for local, (fld, save_st) in saves.items():
+            restores = [st for st in walk_local(fn) if isinstance(st, ast.Assign) and len(st.targets) == 1 and unparse(st.targets[0]) == f"self.{fld}" and isinstance(st.value, ast.Name) and st.value.id == local]
+            if not restores:
+                continue
+            n += 1
+            if cfg is None:
+                cfg = CFG(fn)
+            rn = {cfg.node_of(x) for x in restores}
+            inst = f"{f.fq}:{fld}"
+            leak = cfg.path_avoiding(cfg.node_of(save_st), cfg.exit, lambda x: x.id in rn, follow_exc=False)
+            if leak is None:
+                r.ok(inst, f"{f.loc} self.{fld} saved in `{local}` and restored on every path to a return")
+            else:
+                r.fail(inst, Finding("C04.R10", f.fq, f"scope-not-restored:{fld}", f"`{unparse(save_st)[:60]}` saves the enclosing table and `self.{fld} = {local}` puts it back, but a path returns without the restore (" + " -> ".join(cfg.describe(leak)[-3:]) + "): the caller goes on with the tables of the nested scope, so labels / values of the enclosing region seen before are forgotten and text that the printer produced is rejected or mis-wired", f"{PARSER}:{save_st.lineno}"))
+    if n < 2:
+        raise AnalysisError(f"{PARSER}: {n} save / restore pairs of parser tables found (ssa_values, blocks, forward_block_references expected in parse_optional_region)")
+
+
 def check(idx: Index, rep: Report, tier: str) -> str:
     rep.run(check_names, idx, rep)
     rep.run(check_ident_or_string, idx, rep)
@@ -516,6 +556,7 @@ def check(idx: Index, rep: Report, tier: str) -> str:
     rep.run(check_order_and_scope, idx, rep)
     rep.run(check_forward_refs, idx, rep)
     rep.run(check_label_hints, idx, rep)
+    rep.run(check_scope_restore, idx, rep)
     return (
         "Regular-language analysis (inclusion / intersection-emptiness with shortest witness, right quotient) between "
         "the name-hint pattern of xdsl/ir/core.py, the image of extract_valid_name, the printer's naming scheme and the "
